@@ -1,5 +1,6 @@
 import KoordVerif.Common.Proto
 import KoordVerif.Model.C03
+import KoordVerif.Model.C03Late
 /-
 Driver for C03.  One case = one history.  `D` = number of dimensions; a resource list is `D`
 pairs `<present 0|1> <value>`.
@@ -19,6 +20,10 @@ pairs `<present 0|1> <value>`.
   podredef <id> <nonPreemptible> <request: D pairs>        a new pod object (new UID) under the cache key of a deleted pod
   unresobj <id> <uid>                                      Unreserve with the pod object of incarnation <uid> (0 = first)
   podbind <id>                                             OnPodUpdate: the bind update (spec.nodeName set) of a cached pod
+  podaddb <id>                                             a BOUND pod object reaches a manager in which no group holds the pod:
+                                                           OnPodAdd of an object with a node name (fail-over add) or an
+                                                           ordinary OnPodUpdate (old and new object bound): filed + assigned
+  quotadel <name>                                          OnQuotaDelete of a group without child groups
   gate <0|1>                                               feature gate ElasticQuotaGuaranteeUsage (default 0): quota objects
                                                            read from now on yield allow-lent = false (declaredLent)
 Output: `v <status code>` after `att`; after every other op one line per group sorted by name:
@@ -173,6 +178,24 @@ def stepLine (s : DState) (line : String) : DState :=
         if !p.inCache || p.ghost || (!limbo s.st p && homeOf s.st p ≠ p.quota) then bad s
         else after s (step s.st (.podBind i)).1
       | none => bad s
+    | none => bad s
+  | ["podaddb", i] =>
+    match nat? i with
+    | some i =>
+      match findP s.st.pods i with
+      | some p =>
+        if p.ghost || (findQ s.st.quotas (homeOf s.st p)).isNone then bad s else after s (podAddBound s.st i)
+      | none => bad s
+    | none => bad s
+  | ["quotadel", n] =>
+    match nat? n with
+    | some n =>
+      -- outside the model: the root, the default quota, a group with child groups, a group that holds a pod whose
+      -- second PodInfo still sits in the default quota
+      if n = rootName || s.st.dflt == some n || (findQ s.st.quotas n).isNone
+         || s.st.quotas.any (fun g => g.parent == n && g.name != n)
+         || s.st.pods.any (fun p => p.ghost && (p.quota == n || p.label == n)) then bad s
+      else after s (quotaDrop s.st n)
     | none => bad s
   | _ => bad s
 
